@@ -6,10 +6,12 @@ def main(argv):
     if not argv:
         print(__doc__ or 'usage: check <id> [--tier quick|thorough]'); return 2
     if argv[0] == 'setup':
-        for c in ('core', 'symcc'):
+        for c in ('core', 'symcc', 'api', 'coreem', 'cli'):
             build_mir(c)
         n = Native('dev'); n.build()
         n2 = Native('dev', crate='replay-symcc', binname='verif-replay-symcc'); n2.build()
+        from .props import c19_cli
+        c19_cli.build_cli(None)         # the `cedar` binary of the tree (native CLI battery of C19)
         print('setup ok'); return 0
     if argv[0] == 'replay':
         from .replay import replay_file
